@@ -71,7 +71,7 @@ static CondIncl *cond_incl;
 static HashMap pragma_once;
 
 // Index after the include path in which the last lookup succeeded
-static int include_next_idx;
+int include_next_idx;
 
 static Token *preprocess2(Token *tok);
 static Macro *find_macro(Token *tok);
